@@ -85,6 +85,17 @@ def _get_sizing(vars, sizing, method, optimal_size=None):
 
         return signed, n_word, n_int, n_frac
 
+def _raw_cast(x, y, n_bits):
+    """
+    Returns the cast to apply to the raw values of `x` and `y` before an integer operation whose result needs `n_bits` bits:
+    Python integers (object dtype) are used when the result does not fit in int64, or when an int64 and an uint64 operand
+    would be promoted to float64 with a result beyond its 53 bits mantissa; otherwise the raw arrays are used as they are.
+    """
+    mixed = np.asarray(x.val).dtype != np.asarray(y.val).dtype
+    if n_bits >= _n_word_max or (mixed and n_bits > 53):
+        return lambda m: np.array(m, dtype=object)
+    return lambda m: m
+
 def _function_over_one_var(repr_func, raw_func, x, out=None, out_like=None, sizing='optimal', method='raw', optimal_size=None, **kwargs):
     if not isinstance(x, Fxp):
         x = Fxp(x)
@@ -316,7 +327,8 @@ def add(x, y, out=None, out_like=None, sizing='optimal', method='raw', **kwargs)
     """
     def _add_raw(x, y, n_frac):
         precision_cast = (lambda m: np.array(m, dtype=object)) if n_frac >= _n_word_max else (lambda m: m)
-        return x.val * precision_cast(2**(n_frac - x.n_frac)) + y.val * precision_cast(2**(n_frac - y.n_frac))
+        raw_cast = _raw_cast(x, y, max(x.n_word + n_frac - x.n_frac, y.n_word + n_frac - y.n_frac) + 2)
+        return raw_cast(x.val) * precision_cast(2**(n_frac - x.n_frac)) + raw_cast(y.val) * precision_cast(2**(n_frac - y.n_frac))
 
     if not isinstance(x, Fxp):
         x = Fxp(x)
@@ -337,7 +349,8 @@ def sub(x, y, out=None, out_like=None, sizing='optimal', method='raw', **kwargs)
     """
     def _sub_raw(x, y, n_frac):
         precision_cast = (lambda m: np.array(m, dtype=object)) if n_frac >= _n_word_max else (lambda m: m)
-        return x.val * precision_cast(2**(n_frac - x.n_frac)) - y.val * precision_cast(2**(n_frac - y.n_frac))
+        raw_cast = _raw_cast(x, y, max(x.n_word + n_frac - x.n_frac, y.n_word + n_frac - y.n_frac) + 2)
+        return raw_cast(x.val) * precision_cast(2**(n_frac - x.n_frac)) - raw_cast(y.val) * precision_cast(2**(n_frac - y.n_frac))
 
     if not isinstance(x, Fxp):
         x = Fxp(x)
@@ -358,7 +371,7 @@ def mul(x, y, out=None, out_like=None, sizing='optimal', method='raw', **kwargs)
     """
     def _mul_raw(x, y, n_frac):
         precision_cast = (lambda m: np.array(m, dtype=object)) if n_frac >= _n_word_max else (lambda m: m)
-        raw_cast = (lambda m: np.array(m, dtype=object)) if (x.n_word + y.n_word) >= _n_word_max else (lambda m: m)
+        raw_cast = _raw_cast(x, y, x.n_word + y.n_word)
         return raw_cast(x.val) * raw_cast(y.val) * precision_cast(2**(n_frac - x.n_frac - y.n_frac))
 
     if not isinstance(x, Fxp):
